@@ -191,7 +191,7 @@ func genC07(tier string, emit func(any)) {
 	}
 	var seqs [][]string
 	kit.Seqs(names, maxLen, func(s []string) { seqs = append(seqs, s) })
-	seqs = append(seqs, []string{"a", "a", "a"}, []string{"a", "ia", "a'", "a0"}, []string{"L128", "a", "L16384", "a"})
+	seqs = append(seqs, []string{"a", "a", "a"}, []string{"a", "ia", "a'", "a0"}, []string{"L128", "a", "L16384", "a"}, []string{"ip1", "ip2"}, []string{"ip1", "k", "a", "ip2"})
 	conts := []string{"v1", "v2", "v2pad", "v2idx-mh", "v2idx-sorted", "v1null", "v2null"}
 	for _, sq := range seqs {
 		for _, cont := range conts {
